@@ -244,7 +244,10 @@ PROPS['C12'] = Prop(
            _fl('filter_plain_before_k2', 7, 2, 'EventDispatcher + MixinList<user mixin without mixinBeforeDispatch, MixinFilter> (targeted configuration of known finding KF-C12-1)', optional_covers=(0, 1, 2, 3, 4, 5, 6, 7)),
            Run('continue_policy', 'filters.cpp', {'TK': 4}, covers=8, optional_covers=(0, 1, 2, 3, 4, 6, 7), bounds='CallbackList<void(uint32_t&)> with canContinueInvoking(a) = a < t: 2..4 listeners adding symbolic increments, symbolic threshold t and argument'),
            Run('conditional_functor', 'filters.cpp', {'TK': 5}, covers=8, optional_covers=(0, 1, 2, 3, 4, 5, 7), bounds='conditionalFunctor with condition (a & mask) == want, mask/want/arguments symbolic, two dispatches'),
-           Run('argument_adapter', 'filters.cpp', {'TK': 6}, covers=8, optional_covers=(0, 1, 2, 3, 4, 5, 6, 7), bounds='argumentAdapter: int64->int32 and uint32->uint16 (symbolic values), Base*->Derived* with Base at a non-zero offset, shared_ptr<Base>->shared_ptr<Derived>'),
+           Run('argument_adapter_numeric', 'filters.cpp', {'TK': 6, 'ADAPT': 0}, covers=8, optional_covers=(0, 1, 2, 3, 4, 5, 6, 7), bounds='argumentAdapter: int64->int32 and uint32->uint16, symbolic values'),
+           Run('argument_adapter_pointer', 'filters.cpp', {'TK': 6, 'ADAPT': 1}, covers=8, optional_covers=(0, 1, 2, 3, 4, 5, 6, 7), bounds='argumentAdapter: Base* -> Derived* with Base at a non-zero offset'),
+           Run('argument_adapter_sharedptr', 'filters.cpp', {'TK': 6, 'ADAPT': 2}, covers=8, optional_covers=(0, 1, 2, 3, 4, 5, 6, 7), bounds='argumentAdapter: shared_ptr<Base> -> shared_ptr<Derived>'),
+           Run('argument_adapter_byvalue', 'filters.cpp', {'TK': 6, 'ADAPT': 3}, covers=8, optional_covers=(0, 1, 2, 3, 4, 5, 6, 7), bounds='argumentAdapter: prototype passes a movable class by non-const lvalue reference, two adapter-wrapped listeners take it by value, a plain listener and the caller read it afterwards; value symbolic'),
            BmcRun('functor_kernels_cbmc', 'functor_kernel.cpp', 'functor_laws.c', bounds='E-bmc cross-check: the real ConditionalFunctor::operator() and ArgumentAdapter::operator() translated IR->C and decided by CBMC for every 32/64-bit argument, mask and comparand')],
     thorough=[_fl('filter_disp_k5', 0, 5, 'EventDispatcher + MixinFilter', optional_covers=(3, 5, 6, 7), budget_s=1700),
               _fl('filter_queue_k5', 1, 5, 'EventQueue + MixinFilter', ' (direct, or enqueue + process)', optional_covers=(5, 6, 7), budget_s=1700),
@@ -254,7 +257,7 @@ PROPS['C12'] = Prop(
               _fl('filter_plain_before_k2', 7, 2, 'EventDispatcher + MixinList<user mixin without mixinBeforeDispatch, MixinFilter> (targeted configuration of known finding KF-C12-1)', optional_covers=(0, 1, 2, 3, 4, 5, 6, 7)),
               Run('continue_policy', 'filters.cpp', {'TK': 4}, covers=8, optional_covers=(0, 1, 2, 3, 4, 6, 7), bounds='as quick'),
               Run('conditional_functor', 'filters.cpp', {'TK': 5}, covers=8, optional_covers=(0, 1, 2, 3, 4, 5, 7), bounds='as quick'),
-              Run('argument_adapter', 'filters.cpp', {'TK': 6}, covers=8, optional_covers=(0, 1, 2, 3, 4, 5, 6, 7), bounds='as quick'),
+              Run('argument_adapter', 'filters.cpp', {'TK': 6}, covers=8, optional_covers=(0, 1, 2, 3, 4, 5, 6, 7), bounds='argumentAdapter, all four conversion kinds of the quick tier in one translation unit'),
               BmcRun('functor_kernels_cbmc', 'functor_kernel.cpp', 'functor_laws.c', bounds='E-bmc cross-check as in the quick tier')],
     outside='more than K steps; filters that add/remove filters while running (CallbackList nesting rules, C02); HeterEventQueue + MixinHeterFilter (does not compile in the unmodified library: private PrototypeList alias)',
     assumptions=['filter verdicts and rewrites are fresh symbolic values on every dispatch'])
